@@ -20,8 +20,11 @@ CONSTANTS
   Kinds = {"fd", "tmr", "sgn"}
   Keys = {1, 2}
   SrcOpts <- Opts_plain
+  EvKinds = {"ps"}
   MaxBatch = 2
   Errnos = {}
+  TbVals = {}
+  TickVals = {}
   Targets = {"A"}
   AutoVals = {TRUE}
   Senders = {"A"}
